@@ -50,7 +50,7 @@ func runC16S3(c *fw.Case) {
 		return
 	}
 	defer s3.close()
-	prefix := []string{"", "pfx", "a/b"}[c.Draw(3, "s3.prefix")]
+	prefix := []string{"", "pfx", "a/b", "store", "backup/chunks", "cafe/0"}[c.Draw(6, "s3.prefix")]
 	st, err := s3.store(prefix, unc)
 	if err != nil {
 		c.HarnessError("%v", err)
